@@ -75,23 +75,24 @@ CHECKS = {
 # further kinds added by the later audit waves (appended to the text of the check)
 LATER = {
  "C01": "Later kinds: operands of 300+ items, operator-method-operator chains, consumed periodic operands, scalars with __getitem__; the element of a broadcast result must be exactly the scalar call's value over a menu of powers of ten and two, and a Stream given to a broadcasting function stays the caller's (another object comes back, the input keeps its own elements); operators on elements that are mutable containers (lists, sets, dicts; one object repeated, a hub feeding two expressions): new values, operands unchanged.",
- "C02": "Later additions: endless-memory tripwires for filters, float / Fraction / bool counts, keyword routes, 1200 nested operators and 700 gain stages, a 300 / 1200 output run per stage; coefficient / parameter sources read n times when the input ends after n samples; a finite note inside a mixer that keeps running.",
- "C03": "Later kinds: call routes, structural parameter types, 3-operation permutations on 5000-item streams, copy / tee of Stream subclasses and hubs, tee of 19 kinds of input for n = 0..3 under every order of single-item consumption, 17 non-iterables (incl. class objects whose instances are iterable) for thub; a hub garbage-collected with uses never taken while uses handed out are half read; tee of a hub counted as one use.",
- "C05": "Later kinds: banks nested in banks, powers to 9 and negative powers run on signals, float-exponent delays, exactness with 2**60+1 coefficients, call routes; numbers and coefficient lists as bank members (first / last) on list, tuple, Stream and iterator inputs.",
+ "C02": "Later additions: endless-memory tripwires for filters, float / Fraction / bool counts, keyword routes, 1200 nested operators and 700 gain stages, a 300 / 1200 output run per stage; coefficient / parameter sources read n times when the input ends after n samples; a finite note inside a mixer that keeps running; reflected operators with a finite left iterable; a mixer read beside an idle one.",
+ "C03": "Later kinds: call routes, structural parameter types, 3-operation permutations on 5000-item streams, copy / tee of Stream subclasses and hubs, tee of 19 kinds of input for n = 0..3 under every order of single-item consumption, 17 non-iterables (incl. class objects whose instances are iterable) for thub; a hub garbage-collected with uses never taken while uses handed out are half read; tee of a hub counted as one use; lists returned by peek / take overwritten by the caller at once.",
+ "C04": "Later additions: coefficient types (int, float, Fraction, complex, big ints) incl. one type on both sides of a delay, shapes with 31..200 terms, filters alive together, decoy filters run first in the same process (same delays and other values; everything equal but a0), structural parameter types.",
+ "C05": "Later kinds: banks nested in banks, powers to 9 and negative powers run on signals, float-exponent delays, exactness with 2**60+1 coefficients, call routes; numbers and coefficient lists as bank members (first / last) on list, tuple, Stream and iterator inputs; banks edited in place (member replaced / appended / removed).",
  "C06": "Later kinds: hubs of coefficients shared by several filters, stereo use of one filter, sums on a shared denominator object, a ControlStream coefficient under copying algebra, quotients with delayed / one-term stream divisors, constructor argument forms (bare Stream / ControlStream / hub / number / list / dict / filter x denominator forms x positional / keyword); one hub in several coefficient positions of one filter run directly, through copies, and copy plus original.",
  "C07": "Later additions: exponents to 9, == / != / set membership of polynomials hashed beforehand (pairs differing only where hash(-1) == hash(-2)), float powers, same-object products, call routes.",
  "C08": "Later additions: identity of the pad object, abandoned zero_pad views, pad counts beyond 2**63, an endless hop, inputs of 1000+ items, the read count at the moment a block is produced, old-protocol sequences (__len__ / __getitem__ only), a buffer filled between the call and the first block.",
- "C09": "Later additions: seven calling styles incl. a configured partial used as the parent of several processors, a second call of the same processor, callable / iterable / library windows, processing callables without __name__, default-hop overlap-add, call routes and structural parameter types.",
+ "C09": "Later additions: seven calling styles incl. a configured partial used as the parent of several processors, a second call of the same processor, callable / iterable / library windows, processing callables without __name__, default-hop overlap-add, call routes and structural parameter types; short-lived window callables before the real one; None given at the call replacing a stored option.",
  "C10": "Later additions: shared lag lists (argument unchanged), results held across later calls, int / Fraction lag types, blocks of 33..512 samples, call routes incl. order >= len; all blocks of 1..3 (4) plain ints up to full scale plus constant / alternating full-scale blocks for acorr and lag_matrix.",
- "C11": "Later additions: |k| > 1 and a last coefficient of magnitude 1 through levinson_durbin, near-circle roots, orders 8..33 and comb denominators of order 300 and 1200.",
- "C12": "Later additions: long FIRs, complex blocks, the block's own FFT-bin frequencies and non-bin frequencies for dft, impulse-vs-response and exponential probes with a0 in {2, -1/2, 4}, call routes.",
- "C13": "Later additions: hub parameters (one use taken, the caller's use intact), stream-valued parameters by keyword as well as by position, near-unit alphas and huge / negative taus for comb, gammatone.sampled orders 1..3, call routes.",
+ "C11": "Later additions: |k| > 1 and a last coefficient of magnitude 1 through levinson_durbin, near-circle roots, orders 8..33 and comb denominators of order 300 and 1200; real coefficients typed complex; lags as a tuple and the caller's list unchanged.",
+ "C12": "Later additions: long FIRs, complex blocks, the block's own FFT-bin frequencies and non-bin frequencies for dft, impulse-vs-response and exponential probes with a0 in {2, -1/2, 4} after the same taps with other gains, frequencies given as tuple / iterator / generator / Stream / map, call routes.",
+ "C13": "Later additions: hub parameters (one use taken, the caller's use intact), stream-valued parameters by keyword as well as by position, near-unit alphas and huge / negative taus for comb, gammatone.sampled orders 1..3, the cascade's own freq_response at the centre frequency, call routes.",
  "C14": "Later additions: aliasing between strategies of wsymm, cos alphas {0, 1, 1.5, 2, 3, 4}, call routes and structural parameter types.",
  "C15": "Later kinds: strategies that are equal but never identical, key names that are dict method names, long deterministic histories on wide universes; every reached state cast to a new MultiKeyDict three ways (equal and independent); an unhashable value as an assignment that raises and changes nothing.",
- "C16": "Later additions: the keep switch as an operation, a probe of the real mixer after every operation that leaves the model state unchanged, mixers fed through ControlStream routes, call routes.",
- "C17": "Later additions: an endless player with 3 control operations one deviation deeper, the chunk size taken from chunks.size, play refused twice after close, plain two-player programs at two deviations in the quick tier, an unbounded stateful search (canonical state at every decision point) for the small programs; a play() the backend or the format table refuses inside ordinary histories; monitoring programs whose played iterable is the manager's own io.record().",
- "C18": "Later additions: interleaved reads of two files, file objects not at offset 0, a user-changed default chunk size, descriptor accounting through /proc/self/fd, call routes.",
- "C19": "Later additions: float modulo_counter paths, karplus_strong memories shorter / longer than the comb's order (list, tuple, Stream, callable, None), noise through an owned random seam.",
+ "C16": "Later additions: the keep switch as an operation, a probe of the real mixer after every operation that leaves the model state unchanged, mixers fed through ControlStream routes, zero values and items that are strings / tuples / Fractions / complex, mixers as events of mixers, call routes.",
+ "C17": "Later additions: an endless player with 3 control operations one deviation deeper, the chunk size taken from chunks.size, play refused twice after close, plain two-player programs at two deviations in the quick tier, an unbounded stateful search (canonical state at every decision point) for the small programs; a play() the backend or the format table refuses inside ordinary histories; monitoring programs whose played iterable is the manager's own io.record(); played iterables as tuple / Stream / iterator / deque; virtual RLock / Condition / Semaphore incl. class-level primitives.",
+ "C18": "Later additions: interleaved reads of two files, file objects not at offset 0, a user-changed default chunk size, descriptor accounting through /proc/self/fd, call routes; chunks of Streams / copies / iterators / tuples / deques; zeros of both signs compared as bytes.",
+ "C19": "Later additions: float modulo_counter paths, karplus_strong memories shorter / longer than the comb's order (list, tuple, Stream, callable, None), noise through an owned random seam; resample after the neighbouring orders in the same process.",
  "C20": "Later additions: fractional clip limits, negative / zero unwrap steps, plain int / Fraction samples, zcross with plain Fraction samples exactly on non-dyadic thresholds (1/10, 1/5, 9/10); unwrap with exactly one of max_delta / step left at its documented default.",
 }
 
